@@ -198,7 +198,8 @@ package pbft
 // is ASSUMED (trusted-ensures) except where stated; what is proved of each body is listed on the function.
 
 //@ pred wfCS(cs *ConsensusState) = cs != nil && cs.state != nil && cs.timeoutParams != nil && cs.timeoutTicker != nil && cs.blockStore != nil \
-//@      && cs.RoundState.Votes != nil && cs.RoundState.Validators != nil && cs.RoundState.Votes.round >= cs.RoundState.Round
+//@      && cs.RoundState.Votes != nil && cs.RoundState.Validators != nil && cs.RoundState.Votes.round >= cs.RoundState.Round \
+//@      && (cs.RoundState.ProposalBlock != nil ==> wfBlock(cs.RoundState.ProposalBlock)) && (cs.RoundState.LockedBlock != nil ==> wfBlock(cs.RoundState.LockedBlock))
 
 //@ writers RoundState.LockedBlock: enterPrecommit, addVote, updateToState, SwitchToConsensus
 //@   props C04 C01
@@ -311,3 +312,42 @@ package pbft
 //@   ensures  [rejected-vote-triggers-nothing] !added ==> calls(enterNewRound) == 0 && calls(enterPrevote) == 0 && calls(enterPrecommit) == 0 && calls(enterCommit) == 0 && calls(enterPrevoteWait) == 0 && calls(enterPrecommitWait) == 0
 //@   ensures  [rejected-vote-leaves-round-state] !added ==> cs.RoundState.LockedBlock == old(cs.RoundState.LockedBlock) && cs.RoundState.LockedRound == old(cs.RoundState.LockedRound) && cs.RoundState.Step == old(cs.RoundState.Step) && cs.RoundState.Round == old(cs.RoundState.Round) && cs.RoundState.Height == old(cs.RoundState.Height) \
 //@              && cs.RoundState.Proposal == old(cs.RoundState.Proposal) && cs.RoundState.ProposalBlock == old(cs.RoundState.ProposalBlock) && cs.RoundState.CommitRound == old(cs.RoundState.CommitRound)
+
+
+// ---------------------------------------------------------------------------------------------
+// peer input (C08): proposals, block parts, votes
+
+//@ func (*ConsensusState).defaultSetProposal
+//@   props C08 C04
+//@   requires wfCS(cs) && proposal != nil
+//@   aborts when [empty-validator-set] len(cs.RoundState.Validators.Validators) == 0
+//@   assigns  cs.RoundState.Proposal, cs.RoundState.ProposalBlockParts, cs.RoundState.Validators.proposer
+//@   ensures  [accepted-proposal-is-signed-by-proposer] cs.RoundState.Proposal != old(cs.RoundState.Proposal) ==> result == nil && cs.RoundState.Proposal == proposal && old(cs.RoundState.Proposal) == nil \
+//@              && proposal.Height == cs.RoundState.Height && proposal.Round == cs.RoundState.Round && (proposal.POLRound == -1 || (0 <= proposal.POLRound && proposal.POLRound < proposal.Round)) \
+//@              && 0 <= proposal.BlockPartsHeader.Total && proposal.BlockPartsHeader.Total <= types.MaxBlockSize
+//@   ensures  [rejected-proposal-changes-nothing] result != nil ==> cs.RoundState.Proposal == old(cs.RoundState.Proposal) && cs.RoundState.ProposalBlockParts == old(cs.RoundState.ProposalBlockParts)
+//@   ensures  wfCS(cs)
+
+//@ func (*ConsensusState).addProposalBlockPart
+//@   props C08 C17 C04
+//@   requires wfCS(cs) && part != nil
+//@   aborts when [where-tryFinalizeCommit-aborts] calls(tryFinalizeCommit) >= 1
+//@   ensures  [other-height-ignored] old(cs.RoundState.Height) != height ==> !added && err == nil && calls(AddPart) == 0
+//@   ensures  [block-decoded-only-from-complete-set] calls(ReadBinary) >= 1 ==> calls(AddPart) == 1
+//@   atcall ReadBinary assert [decode-only-complete-part-set] cs.RoundState.ProposalBlockParts.count == cs.RoundState.ProposalBlockParts.total
+//@   atcall ReadBinary assert [decode-is-size-limited] arg_lmt == types.MaxBlockSize
+//@   onwrite RoundState.ProposalBlock assert [proposal-block-has-all-parts] newval != nil && as(newval, *types.Block).Header != nil && as(newval, *types.Block).Data != nil && as(newval, *types.Block).LastCommit != nil
+
+//@ func (*ConsensusState).tryAddVote
+//@   props C08 C04
+//@   requires wfCS(cs) && vote != nil
+//@   aborts when [where-addVote-aborts] calls(addVote) >= 1
+//@   ensures  calls(addVote) == 1
+
+//@ func (*ConsensusState).handleMsg
+//@   props C08
+//@   requires wfCS(cs)
+//@   requires [decoded-message-fields-present] (typeIs(mi.Msg, *ProposalMessage) ==> unbox(mi.Msg, *ProposalMessage) != nil && unbox(mi.Msg, *ProposalMessage).Proposal != nil) \
+//@            && (typeIs(mi.Msg, *BlockPartMessage) ==> unbox(mi.Msg, *BlockPartMessage) != nil && unbox(mi.Msg, *BlockPartMessage).Part != nil) \
+//@            && (typeIs(mi.Msg, *VoteMessage) ==> unbox(mi.Msg, *VoteMessage) != nil && unbox(mi.Msg, *VoteMessage).Vote != nil)
+//@   aborts when [where-state-functions-abort] calls(tryAddVote) >= 1 || calls(addProposalBlockPart) >= 1 || calls(setProposal) >= 1
